@@ -225,10 +225,11 @@ Definition MAX_PREALLOC_BYTES : N := 1048576.
 Definition cautious (hint elem_size : N) : N :=
   if N.eqb elem_size 0 then 0%N else N.min hint (MAX_PREALLOC_BYTES / elem_size)%N.
 
-(* ------------------------------------------------------------------ the one-request instance used for the known class *)
+(* ------------------------------------------------------------------ the crux_kv instance *)
 From Crux Require Import Wire.Kv.
 (* a bridge whose only outstanding request is a key-value call [c] made through crux_kv: the
-   continuation is crux_kv's unwrap function for that call *)
+   continuation is crux_kv's unwrap function for that call (a panic there would be a panic of
+   Bridge::handle_response; since fix e5ed299 there is none) *)
 Definition kv_continuation (c : call) (_ : unit) (_ : N) (v : value) : core_res unit :=
   match result_of_v v with
   | Some r => match deliver Command c r with Panicked => CPanic | _ => CDone tt [] end
@@ -237,10 +238,3 @@ Definition kv_continuation (c : call) (_ : unit) (_ : N) (v : value) : core_res 
 Definition kv_waiting : bstate unit := {| core := tt; entries := [(0%N, ROnce F_result)] |}.
 Definition kv_respond (reg : registry) (c : call) (b : list byte) : bres unit :=
   handle_response reg unit (kv_continuation c) (fun _ => 1%N) kv_waiting 0%N b.
-
-(* the known class: the bytes are a well-formed KeyValueResult of a kind the call does not expect *)
-Definition known_kv_mismatch (reg : registry) (k : kind) (b : list byte) : bool :=
-  match bridge_in reg b with
-  | Some (KOk x) => negb (kind_eqb (response_kind x) k)
-  | _ => false
-  end.
